@@ -750,37 +750,22 @@ func streamReadRule(c *Ctx, r *Report, fn *ssa.Function, rule, field string) {
 		}
 		hows = append(hows, cp.how())
 	}
-	// and served first
-	servedFirst := false
+	// and served first: a frame is taken from the channel only when nothing of the previous one is
+	// left, and what is left can be handed out without taking one (remainderServedFirst, ip_g4.go)
+	var sites []copySite
 	for _, cp := range copies {
-		if strings.HasSuffix(cp.src, field) {
-			for _, cd := range condsAt(cp.at.Block()) {
-				if b, ok := cd.V.(*ssa.BinOp); ok && cd.Truth && b.Op == token.GTR && strings.Contains(pathOf(b.X), field) {
-					servedFirst = true
-				}
-			}
-			// it must come before any receive from the channel
-			eachInstr(fn, func(_ *ssa.BasicBlock, _ int, in ssa.Instruction) {
-				switch x := in.(type) {
-				case *ssa.Select:
-					if instrDominates(x, cp.at) {
-						servedFirst = false
-					}
-				case *ssa.UnOp:
-					if x.Op == token.ARROW && instrDominates(x, cp.at) {
-						servedFirst = false
-					}
-				}
-			})
+		if cp.srcV != nil {
+			sites = append(sites, copySite{cp.at, cp.srcV})
 		}
 	}
+	servedFirst, whyNot := remainderServedFirst(c, fn, sites, field)
 	switch {
 	case kept < len(copies) || len(copies) == 0:
 		o.Bad("after copy(p, x) the remainder x[n:] is not stored for the next call (%d of %d copies keep it): bytes of a frame that does not fit the buffer are lost", kept, len(copies))
 	case !servedFirst:
-		o.Bad("the kept remainder is not served before the next frame is taken from the channel: bytes are reordered or lost")
+		o.Bad("the kept remainder is not served before the next frame is taken from the channel: bytes are reordered or lost (%s)", whyNot)
 	default:
-		o.OK("each copy stores x[n:] in %s and a non-empty remainder is served before the next frame (%s)", strings.TrimPrefix(field, "."), strings.Join(hows, "; "))
+		o.OK("each copy stores x[n:] in %s; a frame is received only where len(%s) == 0 is established and a kept remainder is copied out without receiving (%s)", strings.TrimPrefix(field, "."), strings.TrimPrefix(field, "."), strings.Join(hows, "; "))
 	}
 }
 
